@@ -6,7 +6,9 @@ use crate::email::EmailNotificationService;
 use crate::messages::BlockAddedNotification;
 use crate::store::ClnDatastore;
 use crate::{
-    htlc_manager::HtlcManager, messages::HtlcAcceptedRequest, payment_provider::PaymentProvider,
+    htlc_manager::HtlcManager,
+    messages::{HtlcAcceptedRequest, HtlcAcceptedResponse},
+    payment_provider::PaymentProvider,
 };
 use serde_json::Value;
 use tokio::io::{Stdin, Stdout};
@@ -63,8 +65,13 @@ where
     let req: HtlcAcceptedRequest = match serde_json::from_value(v) {
         Ok(req) => req,
         Err(e) => {
+            // A hook call must always be answered with a hook result. If the
+            // request cannot be understood (e.g. the onion payload is not a
+            // well-formed tlv stream), leave the htlc to core lightning.
             error!("failed to deserialize htlc accepted request: {:?}", e);
-            return Err(e.into());
+            return Ok(serde_json::to_value(HtlcAcceptedResponse::Continue {
+                payload: None,
+            })?);
         }
     };
     let resp = plugin.state().htlc_manager.handle_htlc(&req).await;
